@@ -219,7 +219,7 @@ def block_proof(blk, prune_parts=(0, 1, 3)):
 ACC_IDS = [int('11' * 32, 16), int('11' * 31 + '12', 16), int('e0' + '00' * 31, 16)]
 
 
-def mk_state(ctx, n_acc, which, prune_others=True, tamper=None, extra_cur=False):
+def mk_state(ctx, n_acc, which, prune_others=True, tamper=None, extra_cur=False, keep=None):
     """shard_state#9023afe2 ... accounts:^ShardAccounts ... with n_acc accounts; returns (state cell, proof-form state cell, account cells)"""
     accounts = []
     for i in range(n_acc):
@@ -239,7 +239,7 @@ def mk_state(ctx, n_acc, which, prune_others=True, tamper=None, extra_cur=False)
             items.append((format(ACC_IDS[i], '0256b'), (i, acc)))
         root = D.build(items)
         if proof_form and prune_others and n_acc > 1:
-            root = keep_only(root, format(ACC_IDS[which], '0256b'))
+            root = keep_only(root, format(ACC_IDS[which if keep is None else keep], '0256b'))
         extra = '0000000000'           # depth_balance$_ split_depth:(#<= 30) balance:CurrencyCollection  with depth 0, no funds
         if not extra_cur:
             tree = warm(D.encode(root, 256, lambda v: (leaf_bits(v[0]), [v[1]]), None, lambda node: extra))
@@ -300,7 +300,8 @@ def keep_only(edge, keybits):
 
 
 def h_account(ctx, n_acc, which, scenario='honest', twin=None, extra_cur=False):
-    new_state, new_state_proof, accounts = mk_state(ctx, n_acc, which, tamper='state_field' if scenario == 'state_tampered' else None, extra_cur=extra_cur)
+    new_state, new_state_proof, accounts = mk_state(ctx, n_acc, which, tamper='state_field' if scenario == 'state_tampered' else None, extra_cur=extra_cur,
+                                                    keep=((which + 1) % n_acc) if scenario.startswith('own_branch_pruned') else None)
     old_state = SC(ORD, ctx.bitstr('old', 50), [])
     blk = mk_block(ctx, new_state, old_state)
     root_hash = cell_hash(blk, 0)
@@ -329,6 +330,13 @@ def h_account(ctx, n_acc, which, scenario='honest', twin=None, extra_cur=False):
         carrier = to_real(warm(prune(accounts[which], 1)))
         ctx.known('account_proof_accepts_pruned_carrier', True)
         ctx.require(_raises(lambda: run(carrier)), 'a pruned-branch cell that merely carries the committed hash is rejected')
+    elif scenario.startswith('own_branch_pruned'):
+        # a valid Merkle proof of the state in which the dictionary branch of the QUERIED account is pruned (another account's
+        # branch is kept): nothing about the queried account is proven - neither its real state nor "no such account" (the empty
+        # cell) may be accepted
+        claim = Cell.empty() if scenario.endswith('empty') else acc_real
+        ctx.require(not _raises(lambda: CP.check_proof(p2, cell_hash(new_state, 0))), 'the state proof with the queried branch pruned is a valid Merkle proof')
+        ctx.require(_raises(lambda: run(claim)), 'a proof that prunes the queried account proves nothing about it')
     elif scenario == 'other_block_hash':
         rh = ctx.bytes_('claimed_root', 32)
         ctx.assume(Not(rh == root_hash))
@@ -551,6 +559,9 @@ def instances(tier, seed):
         for which in range(n_acc):
             for sc in ('honest', 'other_account', 'pruned_carrier', 'other_block_hash', 'state_tampered', 'header', 'header_forged_level', 'state_forged_level'):
                 yield 'h_account', dict(n_acc=n_acc, which=which, scenario=sc)
+    for n_acc, which in ((2, 0), (2, 1), (3, 1)):
+        for sc in ('own_branch_pruned_empty', 'own_branch_pruned_real'):
+            yield 'h_account', dict(n_acc=n_acc, which=which, scenario=sc)
     for sc in ('honest', 'other_account', 'pruned_carrier'):
         yield 'h_account', dict(n_acc=2, which=1, scenario=sc, extra_cur=True)
         yield 'h_account', dict(n_acc=1, which=0, scenario=sc, extra_cur=True)
